@@ -100,10 +100,13 @@ CLAIMED = {
    text="Theorem C02_single_line: for EVERY expression tree (all node kinds, f-strings nested to any depth) whose identifiers and "
         "number/bytes reprs contain no line break, the text of the project's own unparser (model tied by string correspondence, "
         "escape table regenerated from the code) contains no line break - by structural induction with a finite vm_compute check of "
-        "the 0..0x2FF escape table and the surrogate block. That the returned text is exactly one expression is decided by compile() "
+        "the 0..0x2FF escape table and the surrogate block. C02_core_output_is_one_expression_partial: for every output tree inside the "
+        "core of the C03 round-trip theorem (more than 90% of the explored outputs, counted in the evidence) the tokens of the "
+        "unparser model's text are read by the expression parser as exactly that tree with no token left over; outside the core, "
+        "that the returned text is exactly one expression is decided by compile() "
         "on every output of generated programs and stripped standard-library modules under all 8 configurations (support); the "
         "ast.unparse path is CPython's code and is only observed. One known finding (walrus in a loop header).",
-   note=TRUST + "Until the C03 round-trip theorem covers it, 'compiles as one expression' rests on CPython's compile() on the explored outputs.",
+   note=TRUST + "Outside the core of the C03 round-trip theorem (f-strings, yield/await, generator expressions as operands), 'compiles as one expression' rests on CPython's compile() on the explored outputs.",
    technique="Coq proof by structural induction over all expression trees + finite table check (vm_compute) + string/AST correspondence + compile() oracle",
    ref="5/C02"),
  "C03": dict(
